@@ -702,8 +702,9 @@ def exec (sc : Scripts) : Nat → Task → World → R
               | some ob => if strict ∧ (w.c.objs ob).destructed then { w := w, val := none } else { w := w, val := some ob }
     | .clone b =>
       let saveCg := w.cg
-      -- `num_objects_this_thread = 0;` at the start of clone_object
-      (exec sc f (.load b true) { w with ldepth := 0 }).andThen fun w v =>
+      -- older sources executed `num_objects_this_thread = 0;` here (which let the enclosing loads count the depth below
+      -- zero); whether the statement is there is regenerated from the source, the model follows the code that exists
+      (exec sc f (.load b true) { w with ldepth := if NV.Gen.C08.cloneClearsDepth then 0 else w.ldepth }).andThen fun w v =>
         match v with
         | none => { w := w, val := none }
         | some ob =>
